@@ -10,8 +10,10 @@ package agent
 //
 // Threads of the spec are real goroutines:
 //   read loop   parks at the verifhook point peer.read.disconnect (after its own conn.Close()) until ReadTeardown
-//   keepalive   the harness calls peer.Manager.ZZVKeepaliveTeardown (= what keepaliveLoop does on a timeout:
-//               conn.Close(); handleDisconnect) - the real timers are set to one hour
+//   keepalive   the REAL keepaliveLoop of agent a runs with a 25 ms interval.  The agents' transport is wrapped
+//               (zzvKaTransport): a KEEPALIVE write of a chosen connection parks inside Write ("a write stuck on a
+//               dead link") = KaBegin; the harness later lets it fail (KaFail: the loop's own error path runs) or
+//               succeed (KaOk).  All other keepalive writes pass (cmesh drops the frames).
 // Completion of registerConnection / handleDisconnect is observed at peer.register.done / peer.disconnect.done.
 //
 //   TestZZVRegReplay : replays a path cover of TLC's transition graph; after every step registration, routes, relay
@@ -35,6 +37,7 @@ import (
 	"net"
 	"runtime"
 	"sort"
+	"strconv"
 	"strings"
 	"sync"
 	"testing"
@@ -59,6 +62,7 @@ type zzvRegState struct {
 	Alive  []bool              `json:"alive"`
 	Reg    map[string][]int    `json:"reg"`
 	Rd     map[string][]string `json:"rd"`
+	Ka     map[string][]string `json:"ka"`
 	Advq   []int               `json:"advq"`
 	Rt     int                 `json:"rt"`
 	Rl     int                 `json:"rl"`
@@ -100,6 +104,7 @@ type zzvRegProj struct {
 	Alive  []bool
 	Reg    map[string][]int
 	Gate   []string // "a:1" = read loop of a's end of link 1 is parked before its teardown
+	KaBusy []string // "a:1" = keepalive loop of a's end of link 1 is inside its (stuck) keepalive write
 	Advq   []int
 	Rt, Rl bool
 	Proc   map[string]int // frames of the other identity that reached processFrame since the path began
@@ -126,8 +131,144 @@ type zzvRegWorld struct {
 	dialRes     map[int]*string // nil: still running; "" ok; else error text
 	streams     []net.Conn
 	expProc     map[string]int
-	oracle      []string // oracle violations of the current step
-	idleReaders int      // read loops blocked in Read when a and b are not connected (the two ends of C-A)
+	oracle      []string                   // oracle violations of the current step
+	idleReaders int                        // read loops blocked in Read when a and b are not connected (the two ends of C-A)
+	kaWant      map[zzvRegKaKey]bool       // park the next keepalive write of this agent on this real link
+	kaParked    map[zzvRegKaKey]*zzvKaPark // keepalive writes parked inside Write
+	kaGone      []int64                    // goroutine ids of keepalive loops that were parked during this path
+}
+
+type zzvRegKaKey struct {
+	x    string
+	link *zzvLink
+}
+
+type zzvKaPark struct {
+	gid  int64
+	fail chan bool
+}
+
+// ---- transport wrapper: lets the harness hold a KEEPALIVE write inside Write and decide its outcome ------------
+
+type zzvKaTransport struct {
+	inner *zzvTransport
+	w     *zzvRegWorld
+	x     string
+}
+
+func (t *zzvKaTransport) Type() transport.TransportType { return t.inner.Type() }
+func (t *zzvKaTransport) Close() error                  { return t.inner.Close() }
+func (t *zzvKaTransport) Dial(ctx context.Context, addr string, opts transport.DialOptions) (transport.PeerConn, error) {
+	pc, err := t.inner.Dial(ctx, addr, opts)
+	if err != nil {
+		return nil, err
+	}
+	return &zzvKaConn{PeerConn: pc, t: t}, nil
+}
+func (t *zzvKaTransport) Listen(addr string, opts transport.ListenOptions) (transport.Listener, error) {
+	l, err := t.inner.Listen(addr, opts)
+	if err != nil {
+		return nil, err
+	}
+	return &zzvKaListener{Listener: l, t: t}, nil
+}
+
+type zzvKaListener struct {
+	transport.Listener
+	t *zzvKaTransport
+}
+
+func (l *zzvKaListener) Accept(ctx context.Context) (transport.PeerConn, error) {
+	pc, err := l.Listener.Accept(ctx)
+	if err != nil {
+		return nil, err
+	}
+	return &zzvKaConn{PeerConn: pc, t: l.t}, nil
+}
+
+type zzvKaConn struct {
+	transport.PeerConn
+	t *zzvKaTransport
+}
+
+func (c *zzvKaConn) wrap(st transport.Stream, err error) (transport.Stream, error) {
+	if err != nil {
+		return nil, err
+	}
+	zs, ok := st.(*zzvStream)
+	if !ok {
+		return st, nil
+	}
+	return &zzvKaStream{Stream: st, t: c.t, link: zs.end.link}, nil
+}
+func (c *zzvKaConn) OpenStream(ctx context.Context) (transport.Stream, error) {
+	return c.wrap(c.PeerConn.OpenStream(ctx))
+}
+func (c *zzvKaConn) AcceptStream(ctx context.Context) (transport.Stream, error) {
+	return c.wrap(c.PeerConn.AcceptStream(ctx))
+}
+
+type zzvKaStream struct {
+	transport.Stream
+	t    *zzvKaTransport
+	link *zzvLink
+}
+
+func zzvGoroutineID() int64 {
+	var buf [64]byte
+	n := runtime.Stack(buf[:], false)
+	f := strings.Fields(string(buf[:n]))
+	if len(f) < 2 {
+		return -1
+	}
+	id, _ := strconv.ParseInt(f[1], 10, 64)
+	return id
+}
+
+func (s *zzvKaStream) Write(p []byte) (int, error) {
+	if len(p) > 0 && p[0] == protocol.FrameKeepalive {
+		w, key := s.t.w, zzvRegKaKey{s.t.x, s.link}
+		w.mu.Lock()
+		if w.kaWant[key] {
+			delete(w.kaWant, key)
+			pk := &zzvKaPark{gid: zzvGoroutineID(), fail: make(chan bool, 1)}
+			w.kaParked[key] = pk
+			w.mu.Unlock()
+			if <-pk.fail {
+				return 0, errors.New("zzv: keepalive write on a dead link")
+			}
+		} else {
+			w.mu.Unlock()
+		}
+		// every other keepalive write "succeeds" (cmesh would drop the frame anyway): a keepalive iteration that
+		// the schedule did not ask for must not run the failure path on its own when it happens to hit a link
+		// that was closed a moment ago
+		return len(p), nil
+	}
+	return s.Stream.Write(p)
+}
+
+// zzvGoroutinesGone reports whether none of the goroutines is alive any more.
+func zzvGoroutinesGone(ids []int64) bool {
+	if len(ids) == 0 {
+		return true
+	}
+	var buf []byte
+	for {
+		n := runtime.Stack(zzvStackBuf, true)
+		if n < len(zzvStackBuf) {
+			buf = zzvStackBuf[:n]
+			break
+		}
+		zzvStackBuf = make([]byte, 2*len(zzvStackBuf))
+	}
+	text := string(buf)
+	for _, id := range ids {
+		if strings.Contains(text, fmt.Sprintf("goroutine %d [", id)) {
+			return false
+		}
+	}
+	return true
 }
 
 func zzvRegNode(x string) string { return strings.ToUpper(x) }
@@ -146,9 +287,17 @@ func zzvRegNewWorld(t testing.TB) *zzvRegWorld {
 		c.Exit.Enabled = true
 		c.Exit.Routes = []string{"127.0.0.0/8"}
 	}})
-	m.Add(zzvNodeSpec{Name: "A", Listen: true})
+	m.Add(zzvNodeSpec{Name: "A", Listen: true, Mut: func(c *config.Config) {
+		// a's real keepalive loops tick every 25 ms (no jitter); the timeout branch stays out of reach (20 s)
+		c.Connections.IdleThreshold = 25 * time.Millisecond
+		c.Connections.KeepaliveJitter = 0
+	}})
 	m.Add(zzvNodeSpec{Name: "C", Peers: []string{"A"}})
 	w.ag["a"], w.ag["b"], w.ag["c"] = m.Nodes["A"].A, m.Nodes["B"].A, m.Nodes["C"].A
+	for _, x := range []string{"a", "b"} {
+		n := m.Nodes[zzvRegNode(x)]
+		n.A.transports[transport.TransportWebSocket] = &zzvKaTransport{inner: n.Trans, w: w, x: x}
+	}
 	w.resetMaps()
 	m.SetHook("peer.register.done", w.hookRegister)
 	m.SetHook("peer.read.disconnect", w.hookReadDisconnect)
@@ -207,7 +356,10 @@ func (w *zzvRegWorld) resetMaps() {
 	w.lastReg = map[string]*peer.Connection{}
 	w.tdDone = map[*peer.Connection]int{}
 	w.proc = map[string]int{}
+	w.kaWant = map[zzvRegKaKey]bool{}
+	w.kaParked = map[zzvRegKaKey]*zzvKaPark{}
 	w.mu.Unlock()
+	w.kaGone = nil
 	w.dialCh = map[int]chan error{}
 	w.dialRes = map[int]*string{}
 	w.expProc = map[string]int{}
@@ -330,6 +482,9 @@ func (w *zzvRegWorld) link(l int) *zzvLink {
 	return w.m.Net.links[i]
 }
 
+// linkNoLock is link() for callers that hold w.mu (Net.mu is a different mutex, always taken after w.mu)
+func (w *zzvRegWorld) linkNoLock(l int) *zzvLink { return w.link(l) }
+
 func zzvHeldOf(d *zzvDir, typ uint8) (idx []int) {
 	for i, f := range d.held() {
 		if f.Type == typ {
@@ -361,7 +516,7 @@ func (w *zzvRegWorld) pollDials() {
 
 func (w *zzvRegWorld) project(maxLink int) zzvRegProj {
 	w.pollDials()
-	p := zzvRegProj{Nl: w.nlinks(), Reg: map[string][]int{"a": {}, "b": {}}, Gate: []string{}, Proc: map[string]int{}}
+	p := zzvRegProj{Nl: w.nlinks(), Reg: map[string][]int{"a": {}, "b": {}}, Gate: []string{}, KaBusy: []string{}, Proc: map[string]int{}}
 	w.mu.Lock()
 	for _, x := range []string{"a", "b"} {
 		p.Proc[x] = w.proc[x]
@@ -379,6 +534,18 @@ func (w *zzvRegWorld) project(maxLink int) zzvRegProj {
 	}
 	w.mu.Unlock()
 	sort.Strings(p.Gate)
+	w.mu.Lock()
+	for key := range w.kaParked {
+		l := -1
+		for i := 1; i <= maxLink; i++ {
+			if w.linkNoLock(i) == key.link {
+				l = i
+			}
+		}
+		p.KaBusy = append(p.KaBusy, fmt.Sprintf("%s:%d", key.x, l))
+	}
+	w.mu.Unlock()
+	sort.Strings(p.KaBusy)
 	for _, x := range []string{"a", "b"} {
 		if c := w.registered(x); c != nil {
 			if e, ok := connOf[c]; ok && e.x == x {
@@ -461,6 +628,18 @@ func (w *zzvRegWorld) compare(p zzvRegProj, s zzvRegState) (fields []string) {
 	sort.Strings(gates)
 	if fmt.Sprint(gates) != fmt.Sprint(p.Gate) {
 		fields = append(fields, "gate")
+	}
+	busy := []string{}
+	for i := 0; i < len(s.Dialer); i++ {
+		for _, x := range []string{"a", "b"} {
+			if len(s.Ka[x]) > i && s.Ka[x][i] == "busy" {
+				busy = append(busy, fmt.Sprintf("%s:%d", x, i+1))
+			}
+		}
+	}
+	sort.Strings(busy)
+	if fmt.Sprint(busy) != fmt.Sprint(p.KaBusy) {
+		fields = append(fields, "kabusy")
 	}
 	for _, x := range []string{"a", "b"} {
 		sr := append([]int(nil), s.Reg[x]...)
@@ -662,7 +841,47 @@ func (w *zzvRegWorld) apply(a zzvRegAct) error {
 		}
 		w.duplicateOracle(x, cur)
 		return nil
-	case "KaTimeout", "ReadTeardown":
+	case "KaBegin":
+		lk := w.link(a.L)
+		w.mu.Lock()
+		conn := w.conns[zzvRegEnd{a.X, a.L}]
+		w.mu.Unlock()
+		if lk == nil || conn == nil {
+			return errZZVNA
+		}
+		select {
+		case <-conn.Done():
+			return errZZVNA // the keepalive thread of a closed connection has ended
+		default:
+		}
+		key := zzvRegKaKey{a.X, lk}
+		w.mu.Lock()
+		w.kaWant[key] = true
+		w.mu.Unlock()
+		if !zzvAwait(15*time.Second, func() bool {
+			w.mu.Lock()
+			defer w.mu.Unlock()
+			return w.kaParked[key] != nil
+		}) {
+			w.fatalf("KaBegin(%s,%d): the keepalive loop did not reach its keepalive write", a.X, a.L)
+		}
+		w.mu.Lock()
+		w.kaGone = append(w.kaGone, w.kaParked[key].gid)
+		w.mu.Unlock()
+		return nil
+	case "KaOk":
+		lk := w.link(a.L)
+		key := zzvRegKaKey{a.X, lk}
+		w.mu.Lock()
+		pk := w.kaParked[key]
+		delete(w.kaParked, key)
+		w.mu.Unlock()
+		if pk == nil || lk.closed.Load() {
+			return errZZVNA
+		}
+		pk.fail <- false
+		return nil
+	case "KaFail", "ReadTeardown":
 		w.mu.Lock()
 		conn := w.conns[zzvRegEnd{a.X, a.L}]
 		var gate chan struct{}
@@ -677,14 +896,29 @@ func (w *zzvRegWorld) apply(a zzvRegAct) error {
 		// oracle snapshot
 		cur := w.registered(a.X)
 		stale := cur != nil && cur != conn
-		hadRoute, hadRelay := w.hasRoute(), w.relayCount()
-		if a.Act == "KaTimeout" {
+		curOpen := false
+		if cur != nil {
 			select {
-			case <-conn.Done():
-				return errZZVNA // the keepalive thread of a closed connection has ended
+			case <-cur.Done():
 			default:
+				curOpen = true
 			}
-			w.ag[a.X].peerMgr.ZZVKeepaliveTeardown(conn, errors.New("keepalive timeout"))
+		}
+		hadRoute, hadRelay := w.hasRoute(), w.relayCount()
+		if a.Act == "KaFail" {
+			// the stuck keepalive write returns an error: the real keepaliveLoop runs its failure path
+			key := zzvRegKaKey{a.X, w.link(a.L)}
+			w.mu.Lock()
+			pk := w.kaParked[key]
+			delete(w.kaParked, key)
+			w.mu.Unlock()
+			if pk == nil {
+				return errZZVNA
+			}
+			pk.fail <- true
+			if !zzvAwait(15*time.Second, func() bool { return zzvGoroutinesGone([]int64{pk.gid}) }) {
+				w.fatalf("KaFail(%s,%d): the keepalive loop did not end after its write failed", a.X, a.L)
+			}
 		} else {
 			if gate == nil {
 				return errZZVNA
@@ -694,15 +928,26 @@ func (w *zzvRegWorld) apply(a zzvRegAct) error {
 			w.mu.Unlock()
 			close(gate)
 		}
-		ok := zzvAwait(15*time.Second, func() bool {
-			w.mu.Lock()
-			defer w.mu.Unlock()
-			return w.tdDone[conn] > tdBefore
-		})
-		if !ok {
-			w.fatalf("%s(%s,%d): handleDisconnect did not finish", a.Act, a.X, a.L)
+		// completion: ReadTeardown -> handleDisconnect(conn) has returned; KaFail -> the keepalive goroutine has
+		// ended (whatever its failure path called)
+		if a.Act == "ReadTeardown" {
+			ok := zzvAwait(15*time.Second, func() bool {
+				w.mu.Lock()
+				defer w.mu.Unlock()
+				return w.tdDone[conn] > tdBefore
+			})
+			if !ok {
+				w.fatalf("%s(%s,%d): handleDisconnect did not finish", a.Act, a.X, a.L)
+			}
 		}
 		if stale {
+			select {
+			case <-cur.Done():
+				if curOpen {
+					w.oracle = append(w.oracle, fmt.Sprintf("stale teardown at %s of connection %d closed the live connection", a.X, a.L))
+				}
+			default:
+			}
 			if w.registered(a.X) != cur {
 				w.oracle = append(w.oracle, fmt.Sprintf("stale teardown at %s of connection %d removed the registration of the live connection", a.X, a.L))
 			}
@@ -843,6 +1088,9 @@ func (w *zzvRegWorld) apply(a zzvRegAct) error {
 		}
 		return nil
 	}
+	if a.Act == "RegInsert" { // only in counterexamples of the split model: the code registers in one step
+		return errZZVNA
+	}
 	w.fatalf("unknown action %q", a.Act)
 	return nil
 }
@@ -856,6 +1104,14 @@ func (w *zzvRegWorld) endPath() {
 		close(ch)
 		delete(w.parked, c)
 	}
+	for key, pk := range w.kaParked { // stuck keepalive writes go on (and fail once their link is closed below)
+		pk.fail <- false
+		delete(w.kaParked, key)
+	}
+	for key := range w.kaWant {
+		delete(w.kaWant, key)
+	}
+	gone := append([]int64(nil), w.kaGone...)
 	w.mu.Unlock()
 	n := w.nlinks()
 	for l := 1; l <= n; l++ {
@@ -898,6 +1154,10 @@ func (w *zzvRegWorld) endPath() {
 	if !ok {
 		p := w.project(n)
 		w.fatalf("agents did not return to the initial state after a path: %+v", p)
+	}
+	// keepalive loops that were parked in a write have ended (their connection is closed now)
+	if !zzvAwait(20*time.Second, func() bool { return zzvGoroutinesGone(gone) }) {
+		w.fatalf("keepalive loops that had been parked did not end after the path")
 	}
 	// the read loops released above run their teardown; wait for it so that it cannot leak into the next path
 	// (not fatal: a read loop that saw conn.Done() between two frames ends without a teardown)
@@ -947,11 +1207,11 @@ func zzvRegClass(a zzvRegAct, fields []string, p zzvRegProj, spec zzvRegState, e
 			if a.Act == "AcceptHello" || a.Act == "DeliverAck" {
 				return "viol" // duplicate handling differs
 			}
-			if (a.Act == "KaTimeout" || a.Act == "ReadTeardown") && a.Stale && len(spec.Reg[x]) > 0 {
+			if (a.Act == "KaFail" || a.Act == "ReadTeardown") && a.Stale && len(spec.Reg[x]) > 0 {
 				return "viol" // a stale teardown changed the registration
 			}
 		case f == "rt" || f == "rl":
-			if (a.Act == "KaTimeout" || a.Act == "ReadTeardown") && a.Stale {
+			if (a.Act == "KaFail" || a.Act == "ReadTeardown") && a.Stale {
 				if (f == "rt" && spec.Rt != 0 && !p.Rt) || (f == "rl" && spec.Rl != 0 && !p.Rl) {
 					return "viol" // a stale teardown removed routes / relay entries
 				}
@@ -1034,4 +1294,325 @@ func zzvRegActs(steps []zzvRegStep) []zzvRegAct {
 		out[i] = s.A
 	}
 	return out
+}
+
+// ---------------------------------------------------------------------------------------------------------------
+// TestZZVRegRace: concurrent registrations for the same peer identity (code -> oracles; the RegCheck / RegInsert
+// interleavings of PeerReg.tla with SplitRegister cannot be scheduled from outside, so they are provoked):
+//   lockstep rounds  a and b dial each other; while a's manager mutex is write-locked ("another manager operation
+//                    in progress") the PEER_HELLO_ACK of a's dial and the PEER_HELLO of b's dial are delivered, so
+//                    a's two registerConnection calls queue up at the mutex and enter together when it is released
+//   free rounds      both sides dial at the same instant with nothing held, while other goroutines keep taking the
+//                    manager mutexes (AddPeer / RemovePeer); GOMAXPROCS varies between blocks of rounds
+// Oracle after every round, for every connection object that went through registerConnection at a manager: a
+// connection that is still open must be the registered one (no second live connection for an identity), and a
+// frame arriving on a connection that is not the registered one must not be read or reach processFrame.
+
+type zzvRaceWorld struct {
+	t    testing.TB
+	m    *zzvMesh
+	ag   map[string]*Agent
+	mu   sync.Mutex
+	seen map[string][]*peer.Connection // connections that finished registerConnection, per agent, this round
+	last time.Time
+	proc map[string]int
+	base int
+}
+
+func (w *zzvRaceWorld) agentOf(mg *peer.Manager) string {
+	for x, a := range w.ag {
+		if a.peerMgr == mg {
+			return x
+		}
+	}
+	return ""
+}
+
+func zzvBlockedRegistrations() int {
+	var buf []byte
+	for {
+		n := runtime.Stack(zzvStackBuf, true)
+		if n < len(zzvStackBuf) {
+			buf = zzvStackBuf[:n]
+			break
+		}
+		zzvStackBuf = make([]byte, 2*len(zzvStackBuf))
+	}
+	cnt := 0
+	for _, g := range strings.Split(string(buf), "\n\n") {
+		if strings.Contains(g, "(*Manager).registerConnection") && strings.Contains(g, "sync.(*RWMutex)") {
+			cnt++
+		}
+	}
+	return cnt
+}
+
+func TestZZVRegRace(t *testing.T) {
+	lockRounds := zzvEnvInt("ZZV_RACE_LOCKSTEP", 12)
+	freeRounds := zzvEnvInt("ZZV_RACE_FREE", 150)
+	m := zzvNewMesh(t)
+	w := &zzvRaceWorld{t: t, m: m, ag: map[string]*Agent{}, seen: map[string][]*peer.Connection{}, proc: map[string]int{}}
+	m.Add(zzvNodeSpec{Name: "A", Listen: true})
+	m.Add(zzvNodeSpec{Name: "B", Listen: true})
+	w.ag["a"], w.ag["b"] = m.Nodes["A"].A, m.Nodes["B"].A
+	m.SetHook("peer.register.done", func(args ...any) {
+		mg, conn := args[0].(*peer.Manager), args[1].(*peer.Connection)
+		if x := w.agentOf(mg); x != "" {
+			w.mu.Lock()
+			w.seen[x] = append(w.seen[x], conn)
+			w.last = time.Now()
+			w.mu.Unlock()
+		}
+	})
+	m.SetHook("agent.frame.done", func(args ...any) {
+		a, _ := args[0].(*Agent)
+		for x, ag := range w.ag {
+			if a == ag {
+				w.mu.Lock()
+				w.proc[x]++
+				w.mu.Unlock()
+			}
+		}
+	})
+	m.Net.mu.Lock()
+	m.Net.filter = func(f *zzvFrame) bool { return f.Type != protocol.FrameNodeInfoAdvertise }
+	m.Net.mu.Unlock()
+	m.Start("A", "B")
+	for _, x := range []string{"a", "b"} {
+		w.ag[x].peerMgr.AddPeer(peer.PeerInfo{Address: zzvAddrOf(zzvRegNode(zzvRegOther(x))), Persistent: true,
+			Transport: w.ag[x].transports[transport.TransportWebSocket]})
+	}
+	dial := func(x string) chan error {
+		ch := make(chan error, 1)
+		go func() {
+			ctx, cancel := context.WithTimeout(context.Background(), 30*time.Second)
+			defer cancel()
+			_, err := w.ag[x].peerMgr.ConnectWithTransport(ctx, w.ag[x].transports[transport.TransportWebSocket], zzvAddrOf(zzvRegNode(zzvRegOther(x))))
+			ch <- err
+		}()
+		return ch
+	}
+	nseen := func(x string) int {
+		w.mu.Lock()
+		defer w.mu.Unlock()
+		return len(w.seen[x])
+	}
+	linksSince := func() []*zzvLink {
+		m.Net.mu.Lock()
+		defer m.Net.mu.Unlock()
+		return append([]*zzvLink(nil), m.Net.links[w.base:]...)
+	}
+	var violations []map[string]any
+	outcomes := map[string]int{}
+	probe := &protocol.ControlResponse{RequestID: 1<<63 + 777, ControlType: protocol.ControlTypeStatus, Data: []byte("zzv-probe")}
+	probeRaw, _ := (&protocol.Frame{Type: protocol.FrameControlResponse, StreamID: protocol.ControlStreamID, Payload: probe.Encode()}).Encode()
+	// oracle + clean-up of one round
+	finish := func(mode string, round int) {
+		links := linksSince()
+		reg := map[string]*peer.Connection{}
+		key := ""
+		for _, x := range []string{"a", "b"} {
+			reg[x] = w.ag[x].peerMgr.GetPeer(w.ag[zzvRegOther(x)].ID())
+			w.mu.Lock()
+			conns := append([]*peer.Connection(nil), w.seen[x]...)
+			w.mu.Unlock()
+			open := 0
+			for _, c := range conns {
+				alive := true
+				select {
+				case <-c.Done():
+					alive = false
+				default:
+				}
+				if alive {
+					open++
+				}
+				if alive && c != reg[x] {
+					violations = append(violations, map[string]any{"mode": mode, "round": round, "agent": x,
+						"what": fmt.Sprintf("%s holds a live connection that is not the registered one (dialer=%v): two live connections for one peer identity", x, c.IsDialer())})
+				}
+				if c != reg[x] {
+					// a frame arriving on this connection must not be delivered
+					for _, lk := range links {
+						mine := (strings.ToLower(lk.a.name) == x) == c.IsDialer()
+						if !mine {
+							continue
+						}
+						d := lk.Dir(zzvRegNode(zzvRegOther(x)))
+						w.mu.Lock()
+						before := w.proc[x]
+						w.mu.Unlock()
+						d.mu.Lock()
+						inBefore := len(d.inbuf)
+						d.mu.Unlock()
+						d.inject(probeRaw)
+						time.Sleep(3 * time.Millisecond)
+						d.mu.Lock()
+						inAfter := len(d.inbuf)
+						d.mu.Unlock()
+						w.mu.Lock()
+						after := w.proc[x]
+						w.mu.Unlock()
+						if after != before || inAfter != inBefore+len(probeRaw) {
+							violations = append(violations, map[string]any{"mode": mode, "round": round, "agent": x,
+								"what": fmt.Sprintf("dead frames: a frame arriving at %s on a connection that is not the registered one was read (%d bytes) / processed (%d frames)",
+									x, inBefore+len(probeRaw)-inAfter, after-before)})
+						}
+					}
+				}
+			}
+			key += fmt.Sprintf("%s:%d/%d ", x, open, len(conns))
+		}
+		outcomes[mode+" "+key]++
+		for _, lk := range links {
+			for _, d := range []*zzvDir{lk.a.out, lk.b.out} {
+				d.mu.Lock()
+				d.pending = nil
+				d.mu.Unlock()
+			}
+			lk.close()
+		}
+		ok := zzvAwait(20*time.Second, func() bool {
+			for _, x := range []string{"a", "b"} {
+				if w.ag[x].peerMgr.GetPeer(w.ag[zzvRegOther(x)].ID()) != nil {
+					return false
+				}
+			}
+			w.mu.Lock()
+			defer w.mu.Unlock()
+			for _, cs := range w.seen {
+				for _, c := range cs {
+					select {
+					case <-c.Done():
+					default:
+						return false
+					}
+				}
+			}
+			return true
+		})
+		if !ok {
+			t.Fatalf("zzv: race round %s/%d did not clean up", mode, round)
+		}
+		w.mu.Lock()
+		w.seen = map[string][]*peer.Connection{}
+		w.mu.Unlock()
+		m.Net.mu.Lock()
+		w.base = len(m.Net.links)
+		m.Net.mu.Unlock()
+	}
+	// ---- lockstep rounds
+	m.Net.mu.Lock()
+	m.Net.holdNew = true
+	m.Net.mu.Unlock()
+	aligned := 0
+	for r := 0; r < lockRounds; r++ {
+		x, y := "a", "b" // x is the manager whose two registrations are made to collide
+		if r%2 == 1 {
+			x, y = "b", "a"
+		}
+		chx, chy := dial(x), dial(y)
+		var lx, ly *zzvLink // lx dialed by x, ly dialed by y
+		if !zzvAwait(15*time.Second, func() bool {
+			lx, ly = nil, nil
+			for _, lk := range linksSince() {
+				if len(zzvHeldOf(lk.a.out, protocol.FramePeerHello)) == 1 {
+					if strings.ToLower(lk.a.name) == x {
+						lx = lk
+					} else {
+						ly = lk
+					}
+				}
+			}
+			return lx != nil && ly != nil
+		}) {
+			t.Fatal("zzv: race: the two dials did not produce their PEER_HELLOs")
+		}
+		lx.a.out.release(0) // y accepts x's dial and registers it
+		if !zzvAwait(15*time.Second, func() bool { return nseen(y) == 1 && len(zzvHeldOf(lx.b.out, protocol.FramePeerHelloAck)) == 1 }) {
+			t.Fatal("zzv: race: the first accept did not complete")
+		}
+		blocked := 0
+		w.ag[x].peerMgr.ZZVWithWriteLock(func() {
+			lx.b.out.release(zzvHeldOf(lx.b.out, protocol.FramePeerHelloAck)[0]) // x's dial completes ...
+			ly.a.out.release(0)                                                  // ... and x's accept completes
+			zzvAwait(3*time.Second, func() bool { blocked = zzvBlockedRegistrations(); return blocked >= 2 })
+		})
+		if blocked >= 2 {
+			aligned++
+		}
+		if !zzvAwait(15*time.Second, func() bool { return nseen(x) == 2 }) {
+			t.Fatal("zzv: race: the two registrations did not complete")
+		}
+		if i := zzvHeldOf(ly.b.out, protocol.FramePeerHelloAck); len(i) > 0 && !ly.closed.Load() {
+			ly.b.out.release(i[0]) // y's own dial gets its answer
+		}
+		for _, ch := range []chan error{chx, chy} {
+			select {
+			case <-ch:
+			case <-time.After(20 * time.Second):
+				t.Fatal("zzv: race: a dial did not return")
+			}
+		}
+		finish("lockstep", r)
+	}
+	// ---- free rounds
+	m.Net.mu.Lock()
+	m.Net.holdNew = false
+	m.Net.mu.Unlock()
+	stop := make(chan struct{})
+	var hw sync.WaitGroup
+	for _, x := range []string{"a", "b"} {
+		for k := 0; k < 2; k++ {
+			hw.Add(1)
+			go func(x string, k int) {
+				defer hw.Done()
+				addr := fmt.Sprintf("mem-dummy-%d:1", k)
+				for {
+					select {
+					case <-stop:
+						return
+					default:
+					}
+					w.ag[x].peerMgr.AddPeer(peer.PeerInfo{Address: addr})
+					w.ag[x].peerMgr.RemovePeer(addr)
+				}
+			}(x, k)
+		}
+	}
+	procs := []int{2, 4, runtime.NumCPU()}
+	old := runtime.GOMAXPROCS(0)
+	for r := 0; r < freeRounds; r++ {
+		runtime.GOMAXPROCS(procs[(r*len(procs))/(freeRounds+1)%len(procs)])
+		start := make(chan struct{})
+		res := make(chan error, 2)
+		for _, x := range []string{"a", "b"} {
+			go func(x string) {
+				<-start
+				res <- <-dial(x)
+			}(x)
+		}
+		close(start)
+		for i := 0; i < 2; i++ {
+			select {
+			case <-res:
+			case <-time.After(30 * time.Second):
+				t.Fatal("zzv: race: a free dial did not return")
+			}
+		}
+		// accept sides may still be registering: wait until no registration has finished for a while
+		zzvAwait(5*time.Second, func() bool {
+			w.mu.Lock()
+			defer w.mu.Unlock()
+			return time.Since(w.last) > 15*time.Millisecond
+		})
+		finish("free", r)
+	}
+	runtime.GOMAXPROCS(old)
+	close(stop)
+	hw.Wait()
+	if len(violations) > 8 {
+		violations = violations[:8]
+	}
+	zzvEmit("race", map[string]any{"lockstep": lockRounds, "aligned": aligned, "free": freeRounds, "violations": violations, "outcomes": outcomes})
 }
